@@ -1,7 +1,7 @@
 """C05 - call arguments and results are routed to the right party."""
 
 from tv.designs import gen_spec
-from tv.props._core_a import run_design
+from tv.props._core_a import run_design, tier_opts
 
 ID = "C05"
 ENGINE = "A"
@@ -22,7 +22,7 @@ def budget(tier):
 
 
 def strategy(tier):
-    return gen_spec(allow_rels=False, allow_validate=False, allow_nt=False)
+    return gen_spec(**{**tier_opts(tier), **dict(allow_rels=False, allow_validate=False, allow_nt=False)})
 
 
 def run_case(case):
